@@ -1556,6 +1556,26 @@ template <typename Key, typename Value, class INode>
   UNODB_DETAIL_ASSERT(is_node_min_size);
 
   if constexpr (std::is_same_v<INode, olc_inode_4<Key, Value>>) {
+    // The remaining child replaces this node in the parent. If it is an inner
+    // node, its key prefix gets this node's prefix prepended in place, thus it
+    // must be write-locked too, or a reader already inside it would validate
+    // against an unchanged version. Take its read lock now, while no write
+    // lock is held yet, and upgrade it last, keeping the root-to-leaf order.
+    const std::uint8_t child_to_delete_i = child_i;
+    const std::uint8_t child_to_leave_i = (child_to_delete_i == 0) ? 1U : 0U;
+    const auto child_to_leave{inode.get_child(child_to_leave_i)};
+    if (UNODB_DETAIL_UNLIKELY(!node_critical_section.check())) return {};
+
+    const auto child_to_leave_is_inode =
+        child_to_leave.type() != node_type::LEAF;
+    optimistic_lock::read_critical_section child_to_leave_critical_section;
+    if (child_to_leave_is_inode) {
+      child_to_leave_critical_section =
+          node_ptr_lock(child_to_leave).try_read_lock();
+      if (UNODB_DETAIL_UNLIKELY(child_to_leave_critical_section.must_restart()))
+        return {};
+    }
+
     const optimistic_lock::write_guard parent_guard{
         std::move(parent_critical_section)};
     if (UNODB_DETAIL_UNLIKELY(parent_guard.must_restart())) return {};
@@ -1567,11 +1587,25 @@ template <typename Key, typename Value, class INode>
         std::move(*child_critical_section)};
     if (UNODB_DETAIL_UNLIKELY(child_guard.must_restart())) return {};
 
-    auto current_node{olc_art_policy<Key, Value>::make_db_inode_reclaimable_ptr(
-        &inode, db_instance)};
-    node_guard.unlock_and_obsolete();
-    child_guard.unlock_and_obsolete();
-    *node_in_parent = current_node->leave_last_child(child_i, db_instance);
+    const auto leave_last_child = [&]() noexcept {
+      auto current_node{
+          olc_art_policy<Key, Value>::make_db_inode_reclaimable_ptr(
+              &inode, db_instance)};
+      node_guard.unlock_and_obsolete();
+      child_guard.unlock_and_obsolete();
+      *node_in_parent =
+          current_node->leave_last_child(child_to_delete_i, db_instance);
+    };
+
+    if (child_to_leave_is_inode) {
+      const optimistic_lock::write_guard child_to_leave_guard{
+          std::move(child_to_leave_critical_section)};
+      if (UNODB_DETAIL_UNLIKELY(child_to_leave_guard.must_restart())) return {};
+
+      leave_last_child();
+    } else {
+      leave_last_child();
+    }
 
     UNODB_DETAIL_ASSERT(!node_guard.active());
     UNODB_DETAIL_ASSERT(!child_guard.active());
